@@ -108,6 +108,8 @@ def _case_language(p):
         elif atom[0] == 'cmp' and atom[1] in ('Eq', 'Ne') and {repr(atom[2]), repr(atom[3])} == {'pstart', 'pend'}:
             g = lang.predicate_dfa('is-empty', False)
             pol = pol if atom[1] == 'Eq' else not pol
+        elif atom[0] == 'cmp' and atom[1] in ('Gt', 'Ge', 'Lt', 'Le', 'Eq', 'Ne') and isinstance(atom[3], Aff) and atom[3].is_const() and 0 <= atom[3].c <= 64 and repr(atom[2]) == 'pend -pstart':
+            g = closure.length_dfa(atom[1], atom[3].c)
         if g is not None:
             L = intersect(L, g) if pol else difference(L, g)
     return L
@@ -127,6 +129,19 @@ def _pop_condition(desc):
     if desc.startswith(('path ending in ".."', 'the same, behind')):
         return dd, 'the last segment is ".."'
     return difference(difference(closure.text_dfa(b'', 'suffix'), empty), dd), 'the path is not empty and its last segment is not ".."'
+
+
+def _push_condition(desc):
+    """when `push` takes each of its shapes: the segment becomes the path content (behind "./" where documented) only on an empty path ("" or
+    "/"); it is appended behind a "/" only on a non-empty path; the trailing "./" is replaced only when the path ends with "/./" """
+    from .. import closure, lang
+    from ..aut import difference
+    empty = lang.predicate_dfa('path-is-empty', False)
+    if desc.startswith('empty path'):
+        return empty, 'the path is empty ("" or "/")'
+    if desc.startswith('path ending with'):
+        return closure.text_dfa(b'/./', 'suffix'), 'the path ends with "/./"'
+    return difference(closure.text_dfa(b'', 'suffix'), empty), 'the path is not empty'
 
 
 def list_shapes(run, P):
@@ -167,13 +182,13 @@ def list_shapes(run, P):
                 except closure.Unhandled as e:
                     run.violation(key, f'{pathmut.PRE + m}: effect outside the modelled subset ({e}); failing closed')
                     continue
-                if m == 'pop' and len(p.splices) == 1:
+                if m in ('pop', 'push') and len(p.splices) == 1:
                     # … and each shape only in the case the list operation prescribes it for
                     from ..aut import included
                     for (a, b, c, d) in SHAPES[m]:
                         if cL in a and cR in b and pcs == c:
-                            run.count('pop_case_checks')
-                            C, why = _pop_condition(d)
+                            run.count(f'{m}_case_checks')
+                            C, why = _pop_condition(d) if m == 'pop' else _push_condition(d)
                             w = included(_case_language(p), C)
                             if w is not None:
                                 run.violation(f'case|{m}|{"standalone" if sa else "inplace"}|{guards[:100]}', f'{pathmut.PRE + m} ({"stand-alone" if sa else "inside a URI/IRI"}) [{guards}]: '
@@ -226,6 +241,7 @@ def main(run):
     for msg in sorted(set(pathmut.POP_LOOP_ISSUES)):
         run.violation('pop-loop|start', f'PathMutImpl::pop: {msg} — the segment it removes need not be the last one')
     run.floor('shape_paths', 60, 'handle paths whose splice shape was classified')
+    run.floor('push_case_checks', 20, 'paths of push whose case (empty / non-empty / trailing shield) was compared with the shape taken')
     run.floor('pop_case_checks', 20, 'paths of pop whose case (empty / ends in ".." / other) was compared with the shape taken')
     # the directory meaning of "." and "..": the dispatch of symbolic_push (Engine S over all segment strings) and the loop of symbolic_append
     from .. import symstep
